@@ -95,6 +95,13 @@ var c06Reqs = []c06Req{
 	{"nul-query", "\x00{ x1 }", "", nil, nil},
 	{"nul-opname", "{ x1 }", "\x00", nil, nil},
 	{"opname-as-prefix", `{ x1 }`, "{ x1 }", nil, nil},
+	// twins of normalised shapes that extract nothing themselves
+	{"pcv-twin-int", `query($__pcv0:Int){ echo(i:$__pcv0) }`, "", []map[string]interface{}{nil, v("__pcv0", 3)}, nil},
+	{"pcv-twin-str", `query($__pcv0:String){ echo(s:$__pcv0) }`, "", []map[string]interface{}{nil, v("__pcv0", "own")}, nil},
+	// the same fragment spread at several places
+	{"frag-twice-1", `{ p: a { ...F } q: a { ...F name } } fragment F on A { id aOnly }`, "", nil, nil},
+	{"frag-twice-2", `{ p: a { ...F } q: a { name } } fragment F on A { id aOnly }`, "", nil, nil},
+	{"frag-twice-3", `{ p: a { ...F } q: a { ...F @skip(if:true) name } } fragment F on A { id aOnly }`, "", nil, nil},
 	// F8 repeated fields
 	{"rep-equal-lit", `{ echo(i:1) echo(i:1) }`, "", nil, nil},
 	{"rep-equal-lit-nested", `{ a { name(up:true) } a { name(up:true) } }`, "", nil, nil},
